@@ -293,6 +293,24 @@ CLAIMED = {
         "Modelled not verified: element decoders other than the 30C9/2309 temperature arrays (which are compared bit for bit).",
         "6 (C05)",
     ),
+    "C03": (
+        "Coq proof (payload builders of a core set of constructors vs the REGENERATED payload regexes through the verified regex matcher: finite sweeps lifted by lemma for indexes / log entries / OpenTherm ids / fragment headers, a structural proof for every setpoint word; refuted classes by witnesses) + whole-domain correspondence with the real constructors + oracle over all 45 constructors",
+        "11 theorems in coq/props/C03.v about coq/model/M_Command.v (= _check_idx, the six zone getters with a regex, get_mix_valve_params, "
+        "set_zone_setpoint, get_system_log_entry, get_opentherm_data, get_schedule_fragment) against PAYLOAD_REGEXES and API_MAP regenerated "
+        "from ramses.py / command.py: for every zone index 0..15 the getters' payload is in the language of the regex of the RQ|code they "
+        "are registered under and the index reads back; every other index 0..255 is refused except the three domain ids (refuted: known "
+        "finding); for every index and EVERY setpoint word set_zone_setpoint's payload is accepted for W|2309 and the word reads back "
+        "(with C04_temp_encode_decode: the setpoint at wire resolution); whatever get_system_log_entry builds is one of the 64 entries and "
+        "accepted; all 256 OpenTherm ids give an accepted RQ|3220 carrying the id; every fragment request not refused is accepted; "
+        "RQ|1030 has no regex at all (refuted). PARTIAL: 10 of 45 constructors are modelled; the others, the decoders' own value checks "
+        "beyond the regex, and 'decodes to the values passed in' for modes/datetimes/names are decided by the oracle: every constructor "
+        "of CODE_API_MAP over argument grids (in and out of domain): verb|code as registered, Message._from_cmd accepts, decoded values = "
+        "arguments at wire resolution. Tie: the models' payloads = the real constructors' over 256 indexes x 6 getters, 70 log indexes, "
+        "256 OpenTherm ids, 10 setpoints (incl. refusals).",
+        "Trusted: Coq kernel, translator (regex ASTs, API map), harness. Modelled not verified: hex_from_temp via C04's theorem (setpoint "
+        "k/100 -> word k mod 2^16).",
+        "6 (C03)",
+    ),
 }
 
 NOT_YET = "not claimed yet: the Coq model and correspondence harness for this property are not built in this revision (planned in DESIGN.md section 6)"
